@@ -74,7 +74,6 @@ Proof.
   all: try (destruct P as [P|P]; [left; exact P| rewrite ?E in P; cbn in P; try discriminate P]).
   all: try (right; reflexivity).
   all: try (apply andb_true_iff in E as [E1 E2]; rewrite E1; left; reflexivity).
-  destruct P as [P|P]; [discriminate P| right; exact P].
 Qed.
 
 Lemma loop_stopped_step c g e g' : loop_stopped g -> gstep c g e = Some g' -> is_again e = false -> loop_stopped g'.
@@ -221,7 +220,6 @@ Proof.
   - (* return *) unfold doomed in *. cbn. destruct (jph jb); auto. destruct D as [B R]. split; [exact B|]. intros _. rewrite B. reflexivity.
   - (* expire *) exists jb. split; [exact Hj|]. apply andb_true_iff in E as [E1 E2]. apply negb_true_iff in E2. unfold doomed in *. rewrite E1, E2 in *. cbn in *.
     destruct (jph jb); auto. destruct D as [D _]. discriminate D.
-  - exists jb. split; [exact Hj| rewrite E; exact D].
 Qed.
 
 Lemma doomed_run c j : strict c = true -> forall tr g g' jb, Inv c g -> grun c g tr = Some g' -> getj g j = Some jb ->
@@ -290,7 +288,6 @@ Proof.
   - exact (Forall_nth _ _ _ _ Pr E).
   - intros _ _ X. apply negb_false_iff in X. exact X.
   - apply andb_true_iff in E as [E1 _]. rewrite E1. apply Forall_forall. intros x _ _ _ _. reflexivity.
-  - rewrite E. exact Pr.
 Qed.
 
 Lemma pre_run c : forall tr g g', Inv c g -> PreInv g -> grun c g tr = Some g' -> PreInv g'.
@@ -447,4 +444,49 @@ Proof.
   destruct (Run tr2 g2 g jb2 R2 H2 D2) as (jb & Hg & (Dk & Ds & Dh)). exists jb. split; [exact Hg|]. split; [exact Ds|]. split; [exact Dh|].
   pose proof (inv_run c tr2 _ _ (inv_step c _ _ _ I1 E) R2) as I. destruct (ok_hist _ _ (getj_ok _ _ _ _ I Hg)) as [Hc _ _]. cbn in Hc.
   rewrite Dh in Hc. cbn in Hc. congruence.
+Qed.
+
+(* ---------- never more run-functions in flight than workers ---------- *)
+Lemma workers_run c : forall tr g g', grun c g tr = Some g' -> workers g' = workers g.
+Proof.
+  induction tr as [|e t IH]; intros g g' R; cbn [grun] in R; [injection R as <-; reflexivity|].
+  destruct (gstep c g e) as [g1|] eqn:E; [|discriminate]. rewrite (IH g1 g' R). clear -E. destruct e; step_inv E; reflexivity.
+Qed.
+
+Theorem workers_bound c w b tr g : grun c (ginit w b) tr = Some g -> free g + sumf holds (jobs g) = w.
+Proof.
+  intros R. pose proof (inv_free _ _ (inv_run c tr _ _ (inv_init c w b) R)) as F. rewrite (workers_run c tr _ _ R) in F. exact F.
+Qed.
+
+(* ---------- a run without deadline races is a run of the sharp-deadline model ----------
+   [races] counts the finalisations against the order of the deadline (normal completion of a job that returned after the
+   expiry, TimeoutError for one that had returned before it); the observed configuration allows them, the strict one does not *)
+Lemma races_mono c g e g' : gstep c g e = Some g' -> races g <= races g'.
+Proof. intros H. destruct e; step_inv H; unfold set_job, set_phase, set_flags, setg; cbn [races]; lia. Qed.
+
+Lemma races_mono_run c : forall tr g g', grun c g tr = Some g' -> races g <= races g'.
+Proof.
+  induction tr as [|e t IH]; intros g g' R; cbn [grun] in R; [injection R as <-; lia|].
+  destruct (gstep c g e) as [g1|] eqn:E; [|discriminate]. pose proof (races_mono c g e g1 E). pose proof (IH g1 g' R). lia.
+Qed.
+
+Lemma relaxed_step_strict f k g e g' : gstep (mkCfg false f k) g e = Some g' -> races g' = races g -> gstep (mkCfg true f k) g e = Some g'.
+Proof.
+  intros H Rc. destruct e; try exact H.
+  - (* tell *) cbn [gstep strict] in *. destruct (in_gather g && budget_out g); [|discriminate]. destruct (getj g j) as [jb|]; [|discriminate].
+    destruct (jph jb); try discriminate. cbn [andb] in H. injection H as <-. unfold setg in Rc. cbn [races] in Rc.
+    destruct (late g jb); [reflexivity| lia].
+  - (* finish *) cbn [gstep strict] in *. destruct (in_gather g); [|discriminate]. destruct (getj g j) as [jb|]; [|discriminate].
+    destruct (jph jb); try discriminate. destruct (is_some (jret jb)); [|discriminate]. cbn [andb negb] in H. injection H as <-.
+    unfold setg in Rc. cbn [races] in Rc. destruct (late g jb); [lia| reflexivity].
+Qed.
+
+Theorem race_free_run_is_strict f k : forall tr g g', grun (mkCfg false f k) g tr = Some g' -> races g' = races g ->
+  grun (mkCfg true f k) g tr = Some g' /\ otrace (mkCfg true f k) g tr = otrace (mkCfg false f k) g tr.
+Proof.
+  induction tr as [|e t IH]; intros g g' R Rc; cbn [grun otrace] in *; [auto|].
+  destruct (gstep (mkCfg false f k) g e) as [g1|] eqn:E; [|discriminate].
+  pose proof (races_mono _ _ _ _ E) as M1. pose proof (races_mono_run _ _ _ _ R) as M2.
+  rewrite (relaxed_step_strict f k g e g1 E ltac:(lia)). destruct (IH g1 g' R ltac:(lia)) as [A B]. split; [exact A|].
+  rewrite B. reflexivity.
 Qed.
